@@ -159,7 +159,11 @@ class MessageAny(TlbScheme):
         builder = Builder().store_cell(self.info.serialize())
         if self.init:
             builder.store_bit(1)  # maybe true
-            if len(self.init.serialize().bits) <= (builder.available_bits - 2) and len(self.init.serialize().refs) <= builder.available_refs:
+            init_cell = self.init.serialize()
+            # the body still has to be placed after the state-init: it needs one reference unless it fits inline without any
+            body_inline_bits = builder.available_bits - 2 - len(init_cell.bits)
+            body_ref = 0 if (not self.body.refs and len(self.body.bits) <= body_inline_bits) else 1
+            if len(init_cell.bits) <= (builder.available_bits - 2) and len(init_cell.refs) + body_ref <= builder.available_refs:
                 builder.store_bit(0)  # Either left
                 builder.store_cell(self.init.serialize())
             else:
